@@ -608,6 +608,11 @@ fn spawn_async_ao_list_in_task'''),
         ('hook-runs-before-dispatch-too', 'brush-core/src/commands.rs', "        // We still haven't found a command to invoke. We'll need to look for an external command.\n", "        if let Some(post_execute) = self.post_execute {\n            let _ = post_execute(&mut self.shell);\n        }\n"),
         ('unwrap-of-unchecked-builtin', 'brush-core/src/commands.rs', "        if self.shell.options().posix_mode\n            && builtin\n                .as_ref()\n                .is_some_and(|r| !r.disabled && r.special_builtin)\n        {", "        if self.shell.options().posix_mode {"),
     ],
+    'U15c': [
+        ('output-and-error-accepts-zero-fields', 'brush-core/src/interp.rs', "            if expanded_fields.len() != 1 {\n                return Err(error::ErrorKind::InvalidRedirection.into());\n            }\n\n            let expanded_file_path = expanded_fields.remove(0);", "            if expanded_fields.len() > 1 {\n                return Err(error::ErrorKind::InvalidRedirection.into());\n            }\n\n            let expanded_file_path = expanded_fields.remove(0);"),
+        ('file-target-takes-the-first-of-several-words', 'brush-core/src/interp.rs', "                    if expanded_fields.len() != 1 {\n                        return Err(error::ErrorKind::InvalidRedirection.into());\n                    }\n\n                    let expanded_file_path: PathBuf =", "                    if expanded_fields.is_empty() {\n                        return Err(error::ErrorKind::InvalidRedirection.into());\n                    }\n\n                    let expanded_file_path: PathBuf ="),
+        ('duplicate-target-check-dropped', 'brush-core/src/interp.rs', "                    if expanded_fields.len() != 1 {\n                        return Err(error::ErrorKind::InvalidRedirection.into());\n                    }\n\n                    let mut expanded = expanded_fields.remove(0);", "                    if expanded_fields.len() > 1 {\n                        return Err(error::ErrorKind::InvalidRedirection.into());\n                    }\n\n                    let mut expanded = expanded_fields.remove(0);"),
+    ],
     'U31': [
         ('not-equal-reads-nocaseglob', 'brush-core/src/extendedtests.rs', """                .set_case_insensitive(shell.options().case_insensitive_conditionals);
 
